@@ -62,6 +62,10 @@ Theorem c05_anchors_offsets : forallb anchor_offset offset_anchors = true.
 Proof. vm_compute. reflexivity. Qed.
 Theorem c05_anchors_seven_digit : forallb anchor_seven seven_digit_anchors = true.
 Proof. vm_compute. reflexivity. Qed.
+(* angle and solid-angle units are the fractions of a turn their names say (360 degrees = 400 gon = 6400 mil = 21600 minutes = 1296000 seconds = 2 pi rad;
+   spat = 4 pi sr, square degree = (pi/180)^2 sr ...), to the seven-digit class (the mil is a seven-digit rounding) *)
+Theorem c05_anchors_turn : forallb anchor_seven turn_anchors = true.
+Proof. vm_compute. reflexivity. Qed.
 
 (* only the two temperature-point scales carry an offset *)
 Theorem c05_only_two_offsets :
